@@ -19,6 +19,7 @@ DECIDES = ('every multi-direction subscript of a canonical flat array in the pac
            'sweep_vector passes (input, translate) in this order along a direction whose degree admits two sections (AG8). the 2-D grid view is filled with the point lists of the object\'s own flat array - nothing that may alias an argument is stored in either view (ES1, may-alias analysis), so ctrlpts2d[u][v] and ctrlpts[v + Sv*u] stay one object. insert / remove / refine are additionally decided on abstract nets (OPS2, see C04-C06), so the symbolic rules cannot raise an alarm on a re-spelling of these three functions that OPS2 accepts. the control point managers return the canonical flat index for every position of a box of pairwise different sizes (MG2, integer-exact interpretation, whichever class of the hierarchy implements find_index).')
 NOT_DECIDED = 'that reconstruction evaluates identically also needs C01; nothing structural is left out on the listed functions. Functions the interpreter cannot resolve are reported as notes, never as passes of a claimed obligation.'
 TECHNIQUE = 'abstract interpretation of list layouts over symbolic sizes (polynomial extents, direction labels), stride rule, axis-map coherence'
+DECIDES += (" [ABSTRACT INTERPRETATION] OPS2: insert / remove / refine on abstract nets with index-labelled points; MG2: the managers' index formula on integer boxes; EX2: extract_curves on an abstract surface returns per family the rows, degree and knot vector of its own direction and each option switches off its own family only; CV3: the flip converters cell by cell.")
 
 PKG = ('evaluators', 'helpers', 'operations', 'construct', 'control_points', 'compatibility', 'BSpline', 'NURBS', 'abstract', '_exchange', 'exchange',
        'fitting', 'utilities', '_tessellate', 'sweeping', 'multi', 'trimming', '_operations', 'convert', '_convert')
